@@ -30,6 +30,9 @@ JARS = JAR + ":/opt/veriftools/tla/CommunityModules-deps.jar"
 TLA_LIB = ":".join([SPEC, os.path.join(SPEC, "lib"), os.path.join(SPEC, "mc"),
                     os.path.join(SPEC, "trace"), os.path.join(SPEC, "gen")])
 GUARD = "PIXMAN_VERIF"
+# sanitizer reports must abort (SIGABRT -> the drivers' handler writes a Crash event) instead of exit(1)
+os.environ.setdefault("ASAN_OPTIONS", "abort_on_error=1")
+os.environ.setdefault("UBSAN_OPTIONS", "halt_on_error=1:abort_on_error=1")
 
 
 class Infra(Exception):
